@@ -179,4 +179,25 @@ MUTANTS = {
         "edits": [("Lib/fontTools/ttLib/sfnt.py", "        self.file.write(b\"\\0\" * (self.nextTableOffset - self.file.tell()))\n        assert self.nextTableOffset == self.file.tell()", "        if len(self.tables) + 1 < self.numTables:\n            self.file.write(b\"\\0\" * (self.nextTableOffset - self.file.tell()))")],
         "check": ["C04", "--tier", "quick", "--only", "save"],
     },
+    # ---- C06
+    "c06_offset_wraps": {
+        "edits": [("Lib/fontTools/ttLib/tables/otBase.py", "                    try:\n                        items[i] = packUShort(item.subWriter.pos - pos)\n                    except struct.error:", "                    try:\n                        items[i] = packUShort((item.subWriter.pos - pos) & 0xFFFF)\n                    except struct.error:")],
+        "check": ["C06", "--tier", "quick", "--only", "gen"],
+    },
+    "c06_splitpairpos_class_renumber": {
+        "edits": [("Lib/fontTools/ttLib/tables/otTables.py", "            k: (v - oldCount) for k, v in classDefs.items() if v > oldCount", "            k: (v - oldCount + 1) for k, v in classDefs.items() if v > oldCount")],
+        "check": ["C06", "--tier", "quick", "--only", "gen"],
+    },
+    "c06_splitpairpos_format1_drops_set": {
+        "edits": [("Lib/fontTools/ttLib/tables/otTables.py", "        newSubTable.PairSet = records[oldCount:]", "        newSubTable.PairSet = records[oldCount:-1] + records[oldCount:oldCount + 1]")],
+        "check": ["C06", "--tier", "quick", "--only", "gen"],
+    },
+    "c06_fallback_keeps_stale_positions": {
+        "edits": [("Lib/fontTools/ttLib/tables/otBase.py", "            return writer.getAllData(remove_duplicate=False)", "            data = writer.getAllData(remove_duplicate=False)\n            return data[:-2] + data[-1:] + data[-2:-1] if len(data) > 64 else data")],
+        "check": ["C06", "--tier", "quick", "--only", "corpus,fea"],
+    },
+    "c06_compact_drops_zero_row": {
+        "edits": [("Lib/fontTools/otlLib/optimize/gpos.py", "    return (v1 is None or v1.getEffectiveFormat() == 0) and (", "    return (v1 is None or abs(getattr(v1, \"XAdvance\", 0) or 0) <= 3) and (")],
+        "check": ["C06", "--tier", "quick", "--only", "gen,fea"],
+    },
 }
